@@ -169,7 +169,15 @@ def _ind_match(exp, got):
         _, fields, epc, data = exp
         ds = msg.data_set
         if ds is not None and not isinstance(ds, bytes):
-            ds = ds.read()
+            try:
+                ds.seek(0)
+                ds = ds.read()
+            except Exception:
+                return False
+            if ds[128:132] == b'DICM' and len(ds) >= 144:
+                # received into a Part-10 file: skip preamble and file meta group, the data set follows
+                import struct
+                ds = ds[144 + struct.unpack('<I', ds[140:144])[0]:]
         return getattr(msg, 'command_field', None) == fields.get(0x0100) and pc_id == epc and \
             ((ds or None) == (data or None))
     return False
